@@ -195,7 +195,11 @@ def byron_parse_payload(b):
 
 
 def cbor_parse_bytes(b):
+    """What attribute 1 (cbor2.loads of its value) contributes to the decoder's result: the bytes of a CBOR byte string;
+    nothing for CBOR null, which the library takes for "no HD path" (hd_path_enc_bytes is None); [] = refused."""
     ok, v = _loads(b)
+    if ok and v is None:
+        return [b""]
     return [v] if ok and isinstance(v, bytes) else []
 
 
